@@ -20,7 +20,10 @@ PROPS = {
         "theorems": [(T + "C03.chunking", T + "C03"),
                      (T + "C03.chunking_generator", T + "C03"),
                      (T + "C03.chunking_observable", T + "C03"),
-                     (T + "C03.history", T + "C03")],
+                     (T + "C03.history", T + "C03"),
+                     # the closed form the driver uses for a single piece of >= 4 GiB of zeros
+                     ("TlshVerif.Model.updateZeros_eq", "TlshVerif.Lemmas.HugePiece")],
+        "modules_extra": ["TlshVerif.Lemmas.HugePiece"],
         "extract_keys": ["register shift", "WINDOW_SIZE"],
         "spec_is_property": False,
         "ignore_spec_mm": True,
@@ -45,7 +48,9 @@ PROPS = {
                      (T + "C11.counters_bounded", T + "C11"),
                      (T + "C11.update_len_no_overflow", T + "C11"),
                      (T + "C11.too_large_iff", T + "C11"),
-                     (T + "Tables.limits", T + "TablesLimits")],
+                     (T + "Tables.limits", T + "TablesLimits"),
+                     ("TlshVerif.Model.updateZeros_eq", "TlshVerif.Lemmas.HugePiece")],
+        "modules_extra": ["TlshVerif.Lemmas.HugePiece"],
         "extract_keys": ["length MAX", "TOP_VALUE", "length thresholds", "WINDOW_SIZE"],
         "spec_is_property": True,
         "streams": {
@@ -80,7 +85,7 @@ PROPS = {
                      ("TlshVerif.Ref.topval_bit_lengths", T + "C01")],
         "spec_is_property": True,
         "streams": {
-            "quick": [("default", "kat", 0), ("default", "gen", 2500), ("default", "state", 2500),
+            "quick": [("default", "kat", 0), ("default", "hugepiece", 0), ("default", "gen", 2500), ("default", "state", 2500),
                       ("embedded", "gen", 1200), ("embedded", "state", 1200), ("naive", "gen", 1200),
                       ("default", "gen-large", 3)],
             "thorough": [("default", "kat", 0), ("default", "gen", 40000), ("default", "state", 40000),
@@ -137,7 +142,7 @@ PROPS = {
         "extract_keys": ["TOP_VALUE", "ENCODED_VALUE_SIZE", "length MAX"],
         "spec_is_property": True,
         "streams": {
-            "quick": [("default", "len", 4000), ("default", "len-sweep", 0), ("naive", "len", 2000),
+            "quick": [("default", "hugepiece", 0), ("default", "len", 4000), ("default", "len-sweep", 0), ("naive", "len", 2000),
                       ("unsafe", "len", 2000), ("unsafe", "len-sweep", 0)],
             "thorough": [("default", "len", 100000), ("default", "len-sweep", 0), ("naive", "len", 50000),
                          ("naive", "len-sweep", 0), ("unsafe", "len", 50000), ("unsafe", "len-sweep", 0),
@@ -209,7 +214,8 @@ PROPS = {
         "spec_is_property": True,
         "streams": {
             "quick": [("default", "frombin", 1500), ("default", "acc", 1200), ("embedded", "frombin", 600),
-                      ("embedded", "acc", 600), ("default", "fmt", 300), ("default", "store", 2)],
+                      ("embedded", "acc", 600), ("default", "fmt", 300), ("default", "store", 2),
+                      ("strict", "frombin", 600), ("strict", "acc", 200)],
             "thorough": [("default", "frombin", 30000), ("default", "acc", 30000), ("embedded", "frombin", 10000),
                          ("embedded", "acc", 10000), ("naive", "acc", 10000), ("unsafe", "frombin", 10000),
                          ("unsafe", "acc", 10000), ("default-dev", "acc", 5000), ("default", "fmt", 10000),
@@ -498,7 +504,7 @@ PROPS = {
         "spec_is_property": True,
         "cross_config_streams": ['gen', 'cmp', 'fmt', 'store', 'frombin', 'len', 'state-none'],
         "streams": {
-            "quick": [('default', 'gen', 250), ('default', 'cmp', 400), ('default', 'fmt', 60), ('default', 'store', 1), ('default', 'frombin', 100), ('default', 'len', 300), ('default', 'tables', 300), ('default', 'agg', 200), ('default', 'body', 200), ('default', 'parse', 400), ('naive', 'gen', 250), ('naive', 'cmp', 400), ('naive', 'fmt', 60), ('naive', 'store', 1), ('naive', 'frombin', 100), ('naive', 'len', 300), ('naive', 'tables', 300), ('naive', 'agg', 200), ('naive', 'body', 200), ('optdef', 'gen', 250), ('optdef', 'cmp', 400), ('optdef', 'fmt', 60), ('optdef', 'store', 1), ('optdef', 'frombin', 100), ('optdef', 'len', 300), ('optdef', 'tables', 300), ('optdef', 'agg', 200), ('optdef', 'body', 200), ('optdef', 'parse', 400), ('embedded', 'gen', 250), ('embedded', 'cmp', 400), ('embedded', 'fmt', 60), ('embedded', 'store', 1), ('embedded', 'frombin', 100), ('embedded', 'len', 300), ('embedded', 'tables', 300), ('embedded', 'agg', 200), ('embedded', 'body', 200), ('embedded', 'parse', 400), ('quarter', 'gen', 250), ('quarter', 'cmp', 400), ('quarter', 'fmt', 60), ('quarter', 'store', 1), ('quarter', 'frombin', 100), ('quarter', 'len', 300), ('quarter', 'tables', 300), ('quarter', 'agg', 200), ('quarter', 'body', 200), ('quarter', 'parse', 400), ('mintab', 'gen', 250), ('mintab', 'cmp', 400), ('mintab', 'fmt', 60), ('mintab', 'store', 1), ('mintab', 'frombin', 100), ('mintab', 'len', 300), ('mintab', 'tables', 300), ('mintab', 'agg', 200), ('mintab', 'body', 200), ('mintab', 'parse', 400), ('static-avx2', 'gen', 250), ('static-avx2', 'cmp', 400), ('static-avx2', 'fmt', 60), ('static-avx2', 'store', 1), ('static-avx2', 'frombin', 100), ('static-avx2', 'len', 300), ('static-avx2', 'tables', 300), ('static-avx2', 'agg', 200), ('static-avx2', 'body', 200), ('static-avx2', 'parse', 400), ('static-sse41', 'gen', 250), ('static-sse41', 'cmp', 400), ('static-sse41', 'fmt', 60), ('static-sse41', 'store', 1), ('static-sse41', 'frombin', 100), ('static-sse41', 'len', 300), ('static-sse41', 'tables', 300), ('static-sse41', 'agg', 200), ('static-sse41', 'body', 200), ('static-sse41', 'parse', 400), ('static-sse2', 'gen', 250), ('static-sse2', 'cmp', 400), ('static-sse2', 'fmt', 60), ('static-sse2', 'store', 1), ('static-sse2', 'frombin', 100), ('static-sse2', 'len', 300), ('static-sse2', 'tables', 300), ('static-sse2', 'agg', 200), ('static-sse2', 'body', 200), ('static-sse2', 'parse', 400), ('hexsimd-only', 'gen', 250), ('hexsimd-only', 'cmp', 400), ('hexsimd-only', 'fmt', 60), ('hexsimd-only', 'store', 1), ('hexsimd-only', 'frombin', 100), ('hexsimd-only', 'len', 300), ('hexsimd-only', 'tables', 300), ('hexsimd-only', 'agg', 200), ('hexsimd-only', 'body', 200), ('hexsimd-only', 'parse', 400), ('unsafe', 'gen', 250), ('unsafe', 'cmp', 400), ('unsafe', 'fmt', 60), ('unsafe', 'store', 1), ('unsafe', 'frombin', 100), ('unsafe', 'len', 300), ('unsafe', 'tables', 300), ('unsafe', 'agg', 200), ('unsafe', 'body', 200), ('unsafe', 'parse', 400), ('default', 'race', 8), ('default', 'hist', 200), ('embedded', 'state', 300), ('default', 'state', 300)],
+            "quick": [('default', 'parse-sweep', 24), ('naive', 'parse-sweep', 24), ('optdef', 'parse-sweep', 24), ('embedded', 'parse-sweep', 24), ('quarter', 'parse-sweep', 24), ('mintab', 'parse-sweep', 24), ('hexsimd-only', 'parse-sweep', 24), ('unsafe', 'parse-sweep', 24), ('default', 'gen', 250), ('default', 'cmp', 400), ('default', 'fmt', 60), ('default', 'store', 1), ('default', 'frombin', 100), ('default', 'len', 300), ('default', 'tables', 300), ('default', 'agg', 200), ('default', 'body', 200), ('default', 'parse', 400), ('naive', 'gen', 250), ('naive', 'cmp', 400), ('naive', 'fmt', 60), ('naive', 'store', 1), ('naive', 'frombin', 100), ('naive', 'len', 300), ('naive', 'tables', 300), ('naive', 'agg', 200), ('naive', 'body', 200), ('optdef', 'gen', 250), ('optdef', 'cmp', 400), ('optdef', 'fmt', 60), ('optdef', 'store', 1), ('optdef', 'frombin', 100), ('optdef', 'len', 300), ('optdef', 'tables', 300), ('optdef', 'agg', 200), ('optdef', 'body', 200), ('optdef', 'parse', 400), ('embedded', 'gen', 250), ('embedded', 'cmp', 400), ('embedded', 'fmt', 60), ('embedded', 'store', 1), ('embedded', 'frombin', 100), ('embedded', 'len', 300), ('embedded', 'tables', 300), ('embedded', 'agg', 200), ('embedded', 'body', 200), ('embedded', 'parse', 400), ('quarter', 'gen', 250), ('quarter', 'cmp', 400), ('quarter', 'fmt', 60), ('quarter', 'store', 1), ('quarter', 'frombin', 100), ('quarter', 'len', 300), ('quarter', 'tables', 300), ('quarter', 'agg', 200), ('quarter', 'body', 200), ('quarter', 'parse', 400), ('mintab', 'gen', 250), ('mintab', 'cmp', 400), ('mintab', 'fmt', 60), ('mintab', 'store', 1), ('mintab', 'frombin', 100), ('mintab', 'len', 300), ('mintab', 'tables', 300), ('mintab', 'agg', 200), ('mintab', 'body', 200), ('mintab', 'parse', 400), ('static-avx2', 'gen', 250), ('static-avx2', 'cmp', 400), ('static-avx2', 'fmt', 60), ('static-avx2', 'store', 1), ('static-avx2', 'frombin', 100), ('static-avx2', 'len', 300), ('static-avx2', 'tables', 300), ('static-avx2', 'agg', 200), ('static-avx2', 'body', 200), ('static-avx2', 'parse', 400), ('static-sse41', 'gen', 250), ('static-sse41', 'cmp', 400), ('static-sse41', 'fmt', 60), ('static-sse41', 'store', 1), ('static-sse41', 'frombin', 100), ('static-sse41', 'len', 300), ('static-sse41', 'tables', 300), ('static-sse41', 'agg', 200), ('static-sse41', 'body', 200), ('static-sse41', 'parse', 400), ('static-sse2', 'gen', 250), ('static-sse2', 'cmp', 400), ('static-sse2', 'fmt', 60), ('static-sse2', 'store', 1), ('static-sse2', 'frombin', 100), ('static-sse2', 'len', 300), ('static-sse2', 'tables', 300), ('static-sse2', 'agg', 200), ('static-sse2', 'body', 200), ('static-sse2', 'parse', 400), ('hexsimd-only', 'gen', 250), ('hexsimd-only', 'cmp', 400), ('hexsimd-only', 'fmt', 60), ('hexsimd-only', 'store', 1), ('hexsimd-only', 'frombin', 100), ('hexsimd-only', 'len', 300), ('hexsimd-only', 'tables', 300), ('hexsimd-only', 'agg', 200), ('hexsimd-only', 'body', 200), ('hexsimd-only', 'parse', 400), ('unsafe', 'gen', 250), ('unsafe', 'cmp', 400), ('unsafe', 'fmt', 60), ('unsafe', 'store', 1), ('unsafe', 'frombin', 100), ('unsafe', 'len', 300), ('unsafe', 'tables', 300), ('unsafe', 'agg', 200), ('unsafe', 'body', 200), ('unsafe', 'parse', 400), ('default', 'race', 8), ('default', 'hist', 200), ('embedded', 'state', 300), ('default', 'state', 300)],
             "thorough": [('default', 'gen', 4000), ('default', 'cmp', 8000), ('default', 'fmt', 1500), ('default', 'store', 20), ('default', 'frombin', 3000), ('default', 'len', 5000), ('default', 'tables', 20000), ('default', 'agg', 8000), ('default', 'body', 8000), ('default', 'parse', 8000), ('default', 'state', 3000), ('naive', 'gen', 4000), ('naive', 'cmp', 8000), ('naive', 'fmt', 1500), ('naive', 'store', 20), ('naive', 'frombin', 3000), ('naive', 'len', 5000), ('naive', 'tables', 20000), ('naive', 'agg', 8000), ('naive', 'body', 8000), ('naive', 'parse', 8000), ('naive', 'state', 3000), ('optdef', 'gen', 4000), ('optdef', 'cmp', 8000), ('optdef', 'fmt', 1500), ('optdef', 'store', 20), ('optdef', 'frombin', 3000), ('optdef', 'len', 5000), ('optdef', 'tables', 20000), ('optdef', 'agg', 8000), ('optdef', 'body', 8000), ('optdef', 'parse', 8000), ('optdef', 'state', 3000), ('embedded', 'gen', 4000), ('embedded', 'cmp', 8000), ('embedded', 'fmt', 1500), ('embedded', 'store', 20), ('embedded', 'frombin', 3000), ('embedded', 'len', 5000), ('embedded', 'tables', 20000), ('embedded', 'agg', 8000), ('embedded', 'body', 8000), ('embedded', 'parse', 8000), ('embedded', 'state', 3000), ('quarter', 'gen', 4000), ('quarter', 'cmp', 8000), ('quarter', 'fmt', 1500), ('quarter', 'store', 20), ('quarter', 'frombin', 3000), ('quarter', 'len', 5000), ('quarter', 'tables', 20000), ('quarter', 'agg', 8000), ('quarter', 'body', 8000), ('quarter', 'parse', 8000), ('quarter', 'state', 3000), ('mintab', 'gen', 4000), ('mintab', 'cmp', 8000), ('mintab', 'fmt', 1500), ('mintab', 'store', 20), ('mintab', 'frombin', 3000), ('mintab', 'len', 5000), ('mintab', 'tables', 20000), ('mintab', 'agg', 8000), ('mintab', 'body', 8000), ('mintab', 'parse', 8000), ('mintab', 'state', 3000), ('static-avx2', 'gen', 4000), ('static-avx2', 'cmp', 8000), ('static-avx2', 'fmt', 1500), ('static-avx2', 'store', 20), ('static-avx2', 'frombin', 3000), ('static-avx2', 'len', 5000), ('static-avx2', 'tables', 20000), ('static-avx2', 'agg', 8000), ('static-avx2', 'body', 8000), ('static-avx2', 'parse', 8000), ('static-avx2', 'state', 3000), ('static-sse41', 'gen', 4000), ('static-sse41', 'cmp', 8000), ('static-sse41', 'fmt', 1500), ('static-sse41', 'store', 20), ('static-sse41', 'frombin', 3000), ('static-sse41', 'len', 5000), ('static-sse41', 'tables', 20000), ('static-sse41', 'agg', 8000), ('static-sse41', 'body', 8000), ('static-sse41', 'parse', 8000), ('static-sse41', 'state', 3000), ('static-sse2', 'gen', 4000), ('static-sse2', 'cmp', 8000), ('static-sse2', 'fmt', 1500), ('static-sse2', 'store', 20), ('static-sse2', 'frombin', 3000), ('static-sse2', 'len', 5000), ('static-sse2', 'tables', 20000), ('static-sse2', 'agg', 8000), ('static-sse2', 'body', 8000), ('static-sse2', 'parse', 8000), ('static-sse2', 'state', 3000), ('hexsimd-only', 'gen', 4000), ('hexsimd-only', 'cmp', 8000), ('hexsimd-only', 'fmt', 1500), ('hexsimd-only', 'store', 20), ('hexsimd-only', 'frombin', 3000), ('hexsimd-only', 'len', 5000), ('hexsimd-only', 'tables', 20000), ('hexsimd-only', 'agg', 8000), ('hexsimd-only', 'body', 8000), ('hexsimd-only', 'parse', 8000), ('hexsimd-only', 'state', 3000), ('unsafe', 'gen', 4000), ('unsafe', 'cmp', 8000), ('unsafe', 'fmt', 1500), ('unsafe', 'store', 20), ('unsafe', 'frombin', 3000), ('unsafe', 'len', 5000), ('unsafe', 'tables', 20000), ('unsafe', 'agg', 8000), ('unsafe', 'body', 8000), ('unsafe', 'parse', 8000), ('unsafe', 'state', 3000), ('default', 'race', 200), ('default', 'bodyrows', 2), ('static-sse2', 'bodyrows', 4), ('static-sse41', 'bodyrows', 4)],
         },
         "rule": "the same seeded corpus (gen, cmp, fmt, store, frombin, len) runs in every buildable configuration "
